@@ -277,6 +277,21 @@ impl<'text, Sc> Context<'text, Sc> where Sc: Scanner {
         }
     }
 
+    /// Returns a `Context` with the same `ErrorSink` and no `ErrorTransform`s.
+    /// The `LocalContext` of the given `Context` (which is shared with its
+    /// clones) is left in place.
+    #[must_use]
+    pub fn without_local_context(&self) -> Self {
+        Context {
+            shared: Rc::clone(&self.shared),
+            local: Rc::new(RwLock::new(LocalContext {
+                error_transform: None,
+                parent: None,
+            })),
+            locked: self.locked,
+        }
+    }
+
     /// Removes the `LocalContext` from the `Context` if present.
     pub fn take_local_context(&mut self) -> LocalContext<'text, Sc> {
         std::mem::replace(&mut *self.local
